@@ -478,6 +478,23 @@ fn main() {
                     }
                 }
             }
+            // scale: a file larger than the usual buffer capacities (4096 / 8192), read in chunks at and around those sizes
+            let bigdata: Vec<u8> = (0..9000u32).map(|i| (i % 251) as u8).collect();
+            let scripts: Vec<Vec<ROp>> = vec![
+                vec![ROp::Read(4096), ROp::Read(4096), ROp::Read(4096), ROp::Read(16)],
+                vec![ROp::Read(8192), ROp::Read(8192), ROp::Read(1)],
+                vec![ROp::Read(10000), ROp::Read(1)],
+                vec![ROp::Read(4095), ROp::Cur(2), ROp::Read(4097), ROp::Read(900)],
+                vec![ROp::End(-5), ROp::Read(16), ROp::Start(8191), ROp::Read(2), ROp::Cur(-8194), ROp::Read(3)],
+                vec![ROp::Start(8999), ROp::Read(8192), ROp::Start(9000), ROp::Read(8192), ROp::Start(9001), ROp::Read(1)],
+            ];
+            for ops in &scripts {
+                if mine(&mut id) {
+                    prog.mark(id, "rs big");
+                    out.rec(&run_rs(&membe(), &bigdata, ops));
+                    out.rec(&run_rs(&stdbe(), &bigdata, ops));
+                }
+            }
             let nr = if thorough { 200_000 } else { 16_000 };
             for _ in 0..nr / workers {
                 let data = rand_bytes(&mut rng, if thorough { 9 } else { 5 });
@@ -498,6 +515,25 @@ fn main() {
                     for ops in &seqs {
                         if mine(&mut id) {
                             prog.mark(id, &format!("w {} {:?} {:?}", mode, base, ops));
+                            out.rec(&run_w(&membe(), mode, base.as_deref(), ops));
+                            out.rec(&run_w(&stdbe(), mode, base.as_deref(), ops));
+                        }
+                    }
+                }
+            }
+            // scale: chunks at and around the usual buffer capacities, with and without flushes in between
+            let chunk = |n: usize, off: usize| -> Vec<u8> { (0..n).map(|i| ((i + off) % 253) as u8).collect() };
+            let wscripts: Vec<Vec<WOp>> = vec![
+                vec![WOp::Write(chunk(8192, 0)), WOp::Write(chunk(1, 7)), WOp::Drop],
+                vec![WOp::Write(chunk(5000, 0)), WOp::Write(chunk(5000, 3)), WOp::Flush, WOp::Write(chunk(3, 9)), WOp::Drop],
+                vec![WOp::Write(chunk(9000, 1)), WOp::Flush, WOp::Drop],
+                vec![WOp::Write(chunk(4096, 2)), WOp::Flush, WOp::Write(chunk(4097, 5)), WOp::Drop],
+            ];
+            for mode in ["trunc", "append"] {
+                for base in [None, Some(chunk(100, 11))] {
+                    for ops in &wscripts {
+                        if mine(&mut id) {
+                            prog.mark(id, "w big");
                             out.rec(&run_w(&membe(), mode, base.as_deref(), ops));
                             out.rec(&run_w(&stdbe(), mode, base.as_deref(), ops));
                         }
